@@ -47,7 +47,7 @@ CHECKS = {
     "C05": dict(
         test="TestC05",
         quick=dict(procs=8, checks=150, timeout=600),
-        thorough=dict(procs=32, checks=1500, timeout=2400),
+        thorough=dict(procs=32, checks=1500, timeout=2400, fuzz=dict(target="FuzzDecode", secs=120)),
         mem_gb=6,
         rule="rapid draws (type, valid or wire-edited message, mutation list); per case up to 10 drawn mutations (prefix, byte, length/count field from a hostile set, splice, insert, delete, random) and, for messages <=160 bytes, "
              "EVERY prefix, every length/count field x 11 hostile values and every type-code byte x 15 codes; each input is one evaluation; non-trivial = verdict is not ok and the model got past the first field or into a container; distinct by hash(type signature, input bytes)",
